@@ -8,6 +8,7 @@
 #include "scen_c02.h"
 #include "scen_c17.h"
 #include "scen_persist.h"
+#include "scen_c06.h"
 
 int main(int argc, char **argv) {
     if (argc < 5) { fprintf(stderr, "usage: tpmdrv Cxx seed tier trace [extra]\n"); return 2; }
@@ -29,6 +30,7 @@ int main(int argc, char **argv) {
     else if (!strcmp(prop, "C03")) scen_c03(thorough ? 150 : 14, thorough ? 80 : 40, thorough ? 35 : 12);
     else if (!strcmp(prop, "C05")) scen_c05(thorough ? 120 : 12, thorough ? 60 : 25, thorough ? 30 : 5);
     else if (!strcmp(prop, "C07")) scen_c07(thorough ? 200 : 20, thorough ? 40 : 20);
+    else if (!strcmp(prop, "C06")) scen_c06(thorough ? 12 : 3, 30, thorough ? 4000 : 350);
     else { fprintf(stderr, "no scenario for %s\n", prop); return 2; }
     TPMLIB_Terminate();
     tr("end cmds=%ld ok=%ld faults=%ld", g_n_cmds, g_n_ok, g_fault_fired);
